@@ -18,7 +18,7 @@ FAMILY = [
     ("t**2*exp(-t)", 3, "q"), ("exp(-t) + t*exp(-2*t)", 3, "q"), ("1 + t + t**2", 3, "q"), ("exp(-t) + exp(-2*t) + exp(-3*t)", 3, "t"),
     ("t**3*exp(-t)", 4, "q"), ("t*sin(t)", 4, "t"), ("sin(t) + cos(2*t)", 4, "t"), ("t**3", 4, "q"), ("(1-exp(-5*t))**3*exp(-t)", 4, "q"),
     ("t**3*exp(-t/tau)", 4, "t"), ("sin(t)**3", 4, "t"), ("t**3/(1 + t)", None, "q"), ("t**4*exp(-t)", None, "t"),
-    ("0*t", None, "q"), ("t**4", None, "t"), ("exp(-t**2)", None, "q"), ("1/(1 + t)", None, "q"), ("tanh(t)", None, "t"), ("log(1 + t)", None, "t"),
+    ("0*t", None, "q"), ("t**4", None, "q"), ("exp(-t**2)", None, "q"), ("1/(1 + t)", None, "q"), ("tanh(t)", None, "t"), ("log(1 + t)", None, "t"),
     ("t**2*sin(t)", None, "t"),
 ]
 PARAMS = {"tau": "0.5", "tau_s": "0.2", "a": "1.5", "b": "0.75", "w": "2"}
@@ -197,6 +197,9 @@ def run(ctx, driver):
         got = (res.get("shape") or {}).get("order")
         ctx.count("outcome:" + (str(got) if got else res.get("shape_error", "?").split(":")[0]))
         sig = {"definition": case["f"]}
+        if got is not None and got > 4:
+            # whatever the function: the replacing equation may not exceed the documented maximum order
+            ctx.fail("order-exceeds-maximum", case, {"order": got, "signature": sig})
         if want is None:
             if got is not None:
                 # a function outside the class was accepted: then the dictionary must still reproduce it exactly (judged below); record
@@ -204,8 +207,6 @@ def run(ctx, driver):
         else:
             if got is None:
                 ctx.count("supported_function_rejected")      # allowed by the property ("either rejects it or …"), recorded
-            elif got > 4:
-                ctx.fail("order-exceeds-maximum", case, {"order": got, "signature": sig})
         for p in res.get("problems") or []:
             ctx.fail("function-not-reproduced", case, {"problem": p, "state_variables": res.get("state_variables"), "signature": dict(sig, what=p["what"])})
             break
